@@ -62,6 +62,7 @@ def step (line : String) : String :=
   match line.trimAscii.toString.splitOn " " with
   | "K" :: ts => runKernel ts
   | "S" :: ts => runSolve ts
+  | ["T"] => runText [""]   -- the empty text: its (empty) hex token is trimmed away with the line end
   | "T" :: ts => runText ts
   | "C" :: ts => runCli ts
   | _ => "bad-op"
